@@ -1005,7 +1005,7 @@ func init() {
 		ID:          "C03",
 		Level:       "model_checking",
 		Technique:   "exhaustive enumeration of cut positions (deviation = one cut) over a corpus of client byte streams on a real server (differential against the un-cut delivery), of surplus-carrying messages followed by a probe, and explicit-state enumeration of message bodies x accessor sequences on buffer.Reader against an independent cursor model",
-		Rule:        "segmentation: streams = startup + every history of <= 3 letters over 12 letters (incl. surplus-carrying, oversized, COPY, truncated); read sizes 1/2/3, every single cut, every double cut (all pairs for streams <= 64 bytes, else within +-6 bytes of a message boundary), thorough: triple cuts inside every header; isolation: 16 surplus variants x prefixes of <= 1 letter; declared length: 6 positions (first, after a query, in a batch, in text / binary COPY, awaiting the password) x 15 message types x 15 declared lengths (limit+5 ... 2^31-1, 2^31, 2^31+24, 2^32-1) x {0,1,40} framed queries behind the header then EOF; starter surplus: 5 statement-starting messages (Query / Execute starting text / binary COPY) x 9 surplus contents, callbacks compared with the surplus-free run; inside COPY-in: oversized messages of 6 types x 4 sizes are consumed in exactly their declared length; Sync / Flush messages carrying 9 kinds of bodies leave the copy stream untouched; truncated stream: 7 canonical sessions cut after every byte (a message that was not received completely never reaches user code); earlier message: every Bind shape (0-4 format codes x 0-4 values) processed before every well-formed Bind, what the statement observes compared with the run without the earlier Bind; accessors: all bodies of length <= 5 over {00,01,'a',FF} x all accessor sequences of length <= 4 (thorough 5) over 8 accessors",
+		Rule:        "segmentation: streams = startup + every history of <= 3 letters over 12 letters (incl. surplus-carrying, oversized, COPY, truncated); every history of <= 2 letters additionally while another connection of the same server is parked in each of 5 states (discarding until Sync, inside COPY-in, inside an extended batch, not started, after a failed query); read sizes 1/2/3, every single cut, every double cut (all pairs for streams <= 64 bytes, else within +-6 bytes of a message boundary), thorough: triple cuts inside every header; isolation: 16 surplus variants x prefixes of <= 1 letter; declared length: 6 positions (first, after a query, in a batch, in text / binary COPY, awaiting the password) x 15 message types x 15 declared lengths (limit+5 ... 2^31-1, 2^31, 2^31+24, 2^32-1) x {0,1,40} framed queries behind the header then EOF; starter surplus: 5 statement-starting messages (Query / Execute starting text / binary COPY) x 9 surplus contents, callbacks compared with the surplus-free run; inside COPY-in: oversized messages of 6 types x 4 sizes are consumed in exactly their declared length; Sync / Flush messages carrying 9 kinds of bodies leave the copy stream untouched; truncated stream: 7 canonical sessions cut after every byte (a message that was not received completely never reaches user code); earlier message: every Bind shape (0-4 format codes x 0-4 values) processed before every well-formed Bind, what the statement observes compared with the run without the earlier Bind; accessors: all bodies of length <= 5 over {00,01,'a',FF} x all accessor sequences of length <= 4 (thorough 5) over 8 accessors",
 		Assumptions: []string{"accessor results after the first error and negative sizes are outside the quantifier", "a surplus-carrying message may be rejected by closing the connection (nothing can leak then)"},
 		Enumerate:   c03Enumerate,
 		Bounds: func(tier string) map[string]any {
@@ -1023,7 +1023,76 @@ func c03AccDepth(tier string) int {
 	return 4
 }
 
+// c03RunNeighbour: the stream is served while ANOTHER connection of the same server is parked in some protocol
+// state; transcript and callbacks must be those of the stream served alone ("a function of the client's byte
+// stream alone"), and the neighbour must be found exactly as it was left.
+func c03RunNeighbour(stream []byte, desc string, nb neighbour) (res explore.Result) {
+	res.Outcome = "segmentation"
+	ref := c03Uncut(stream)
+	if ref.engine != "" {
+		res.Engine = ref.engine
+		return res
+	}
+	rec := &script.Rec{Extra: copyHandler}
+	srv, err := harness.NewServer(rec.ParseFn(), wire.MessageBufferSize(c03Limit))
+	if err != nil {
+		res.Engine = err.Error()
+		return res
+	}
+	defer srv.Stop()
+	nc, problem := startNeighbour(srv, nb)
+	if problem != "" {
+		res.Engine = problem
+		return res
+	}
+	n0 := len(rec.Strings())
+	mc := memnet.NewConn("mem:client1")
+	rec.Conn = mc
+	mc.Push(stream)
+	mc.EOF()
+	srv.ConnectWith(mc)
+	st := mc.AwaitClose()
+	if st == memnet.Closed {
+		harness.Settle()
+	}
+	var got c03Out
+	got.status = st.String()
+	got.transcript, _ = harness.CanonTranscript(mc.Output())
+	if all := rec.Strings(); len(all) >= n0 {
+		got.trace = all[n0:]
+	}
+	if !got.equal(ref) {
+		res.Fail("depends-on-another-connection", fmt.Sprintf("%s while another connection of the server is %s:\n transcript %v\n trace %v (%s)\nbut served alone:\n transcript %v\n trace %v (%s)", desc, nb.Name,
+			got.transcript, got.trace, got.status, ref.transcript, ref.trace, ref.status))
+		return res
+	}
+	rec.Conn = nil
+	finishNeighbour(&res, nc, nb, desc)
+	res.Key = fmt.Sprint("nb", desc, nb.Name)
+	return res
+}
+
 func c03Enumerate(tier string, emit explore.Emit) {
+	// every history of <= 2 letters x 5 states of a neighbouring connection of the same server
+	{
+		letters := c03Letters()
+		startup := pgproto.Startup("user", "u")
+		for _, nb := range neighbourStates() {
+			forShapes(len(letters), 2, func(sh []int) {
+				stream := append([]byte(nil), startup...)
+				var names []string
+				for _, s := range sh {
+					stream = append(stream, letters[s].Bytes...)
+					names = append(names, letters[s].Name)
+				}
+				nb := nb
+				desc := fmt.Sprintf("startup+%v", names)
+				emit(explore.Case{Family: "neighbour", Size: 12 + len(sh),
+					Desc: func() any { return map[string]any{"stream": desc, "neighbouring_connection": nb.Name} },
+					Run:  func() explore.Result { return c03RunNeighbour(stream, desc, nb) }})
+			})
+		}
+	}
 	for _, oids := range []int{1, 100, 900} {
 		for d := 0; d <= 24; d++ {
 			for _, t := range []int{0, 1, 4, 8, 12, 16, 23, 24, 25, 40} {
